@@ -322,6 +322,16 @@ def replay(ck, cases, label, x64=False):
   return j, jobs, res
 
 
+def _sub(ck):
+  """Throw-away context for binding self-tests: records violations, writes no replay files."""
+  sub = core.Check(ck.pid, ck.level, ck.tier, ck.seed, parent=ck)
+  def violation(key, what, replay=None):
+    sub.violations.append((key, what, None))
+    return True
+  sub.violation = violation
+  return sub
+
+
 def gen_cases(ck, x64):
   """quick: one covering array (seed VERIF_SEED); thorough: four different arrays."""
   out = []
@@ -366,24 +376,24 @@ def run(ck):
           if r["outcome"] == "ok" and not r["clauses"] and c["rejects"] == "none"]
   if not good:
     raise core.MachineryError("no clean accepted run to build a self-test from")
-  sub = core.Check(ck.pid, ck.level, ck.tier, ck.seed, parent=ck)
+  sub = _sub(ck)
   c0, jb0, r0 = next(g for g in good if g[0]["opt"] == "ds")
   bad_case = copy.deepcopy(c0)
   _corrupt_first_leaf(bad_case["layout"])
   Judge(sub, "selftest").judge(bad_case, jb0, r0)
   ck.selftest("R: corrupted predicted leaf shape is flagged", len(sub.violations) > 0)
-  sub = core.Check(ck.pid, ck.level, ck.tier, ck.seed, parent=ck)
+  sub = _sub(ck)
   r_bad = copy.deepcopy(r0)
   r_bad.update(outcome="internal", phase="update", step=0,
                error={"type": "UnboundLocalError", "msg": "injected", "where": "x.py:1 f", "repo_frame": "x.py:f"})
   Judge(sub, "selftest").judge(c0, jb0, r_bad)
   ck.selftest("R: an internal error is a violation", len(sub.violations) > 0)
-  sub = core.Check(ck.pid, ck.level, ck.tier, ck.seed, parent=ck)
+  sub = _sub(ck)
   r_bad = copy.deepcopy(r0)
   r_bad["clauses"] = [{"clause": "state_layout_changed", "path": ".x", "detail": "injected"}]
   Judge(sub, "selftest").judge(c0, jb0, r_bad)
   ck.selftest("R: a layout change after an update is a violation", len(sub.violations) > 0)
-  sub = core.Check(ck.pid, ck.level, ck.tier, ck.seed, parent=ck)
+  sub = _sub(ck)
   crash_job = dict(jb0, selftest_crash=True)
   Judge(sub, "selftest").judge(c0, crash_job, run_jobs(ck, [crash_job])[0])
   ck.selftest("R: a case that kills its worker process is a violation, not a machinery error",
@@ -655,7 +665,7 @@ def validate_random(ck):
   t2 = copy.deepcopy(traces[k]); t2["events"][-1]["same"] = False
   t3 = copy.deepcopy(traces[k]); t3["events"][-1]["out"] = "internal"
   t4 = copy.deepcopy(traces[k]); t4["events"][-1]["upd"] = False
-  sub = core.Check(ck.pid, ck.level, ck.tier, ck.seed, parent=ck)
+  sub = _sub(ck)
   vs = sub.validate("Layout_Trace", "Layout_Trace", [t1, t2, t3, t4])
   ck.selftest("V: a recorded initial layout with one wrong leaf shape is rejected",
               vs[0]["verdict"] == "initial_layout_differs_from_specified_layout")
